@@ -2060,8 +2060,10 @@ class latest(Stream):
     @gen.coroutine
     def cb(self):
         while True:
-            yield self.condition.wait()
+            while not self.next:
+                yield self.condition.wait()
             [x] = self.next
+            self.next = []
             yield self._emit(x, self.next_metadata)
 
 
